@@ -4,6 +4,8 @@ import math
 from vmon import gen, prog
 from vmon.limitsmon import LimitsMonitor
 
+gen.INTERP_KW_P = 0.5  # interpolated waveforms with interpolator options too (this process runs C01 only)
+
 LEVEL = "exploration"
 RULE = ("histories on devices whose channels draw every optional limit independently as defined/undefined (max_duration "
         "also not a clock multiple, small device maximum duration); pulses are built *from* the limits: amplitude/detuning "
@@ -41,6 +43,8 @@ def durations(rng, c: dict) -> int:
     pool = [1, 2, 3, mn - 1, mn, mn + 1, mn + clk, 5 * clk, 5 * clk + 1, 12 * clk, 7 * clk - 1]
     if mx is not None and mx <= 3000:
         pool += [mx - 1, mx, mx + 1, mx - clk, (mx // clk) * clk]
+        if clk > 1 and mx % clk == 0:  # strictly between max - clock and max: lengthened to exactly the maximum
+            pool += [mx - 1, mx - clk + 1, mx - 1]
     d = gen.pick(rng, pool)
     return max(1, int(d))
 
